@@ -24,6 +24,9 @@ EXC = {'std::invalid_argument': 1, 'std::runtime_error': 2, 'std::length_error':
        'std::range_error': 12, 'std::bad_variant_access': 13, 'std::exception': 99}
 
 
+SYSREC = {'in_addr': 'cxx_in_addr', 'in6_addr': 'cxx_in6_addr', 'timeval': 'cxx_timeval'}
+
+
 def mangle(q):
     q = re.sub(r'^ephemeralnet::', '', q)
     q = q.replace('operator()', 'op_call').replace('operator==', 'op_eq').replace('operator<', 'op_lt')
@@ -46,7 +49,15 @@ class Spec:
         self.options = {}
         cur = None
         sec = None
-        for raw in open(path):
+        def lines_of(pth, depth=0):
+            for raw in open(pth):
+                if raw.startswith('@include '):
+                    if depth > 4:
+                        raise LoweringError('@include nesting too deep')
+                    yield from lines_of(os.path.join(os.path.dirname(path), raw.split()[1]), depth + 1)
+                else:
+                    yield raw
+        for raw in lines_of(path):
             line = raw.rstrip('\n')
             st = line.strip()
             if st.startswith('@'):
@@ -78,6 +89,8 @@ class Spec:
                     sec = cur['pre']
                 elif d == '@loop':
                     sec = cur['loops'].setdefault(int(parts[1]), [])
+                elif d == '@loopbody':
+                    sec = cur.setdefault('loopbody', {}).setdefault(int(parts[1]), [])
                 elif d == '@end':
                     sec = None
                 else:
@@ -92,7 +105,7 @@ class Spec:
 class Lowering:
     def __init__(self, spec):
         self.spec = spec
-        docs = dump_ast(spec.source)
+        docs = dump_ast(spec.source, spec.options.get('astfilter', 'ephemeralnet').replace('none', ''))
         self.ix = Index(docs, spec.source)
         self.typedefs = []          # ordered C typedef text
         self.typedef_names = {}
@@ -204,8 +217,19 @@ class Lowering:
             if name in ('std::chrono::steady_clock', 'std::chrono::system_clock', 'std::chrono::_V2::steady_clock',
                         'std::chrono::_V2::system_clock'):
                 return T('rec', name.replace('_V2::', ''))
+            if name in ('std::nullopt_t', 'std::monostate'):
+                return T('rec', name)
+            if name in SYSREC:
+                return T('rec', name)
             # user typedef / alias / record / enum
             cands = self.ix.lookup(name, kinds=('TypeAliasDecl', 'TypedefDecl', 'CXXRecordDecl', 'EnumDecl'))
+            if not cands:
+                vc = self.ix.lookup(name, kinds=('VarDecl',))
+                if vc:
+                    inits = [c for c in vc[0][1].get('inner', []) if c.get('kind')]
+                    v = self.consteval(inits[0]) if inits else None
+                    if v is not None:
+                        return T('num', n=int(re.sub(r'[uUlL]+$', '', str(v))))
             if not cands:
                 raise LoweringError(f'unknown type name {name!r}')
             kinds = {n['kind'] for _, n in cands}
@@ -354,6 +378,10 @@ class Lowering:
     def record(self, q):
         if q in self.records:
             return self.records[q]
+        if q in SYSREC:
+            self.records[q] = SYSREC[q]
+            self.record_inits[SYSREC[q]] = False
+            return SYSREC[q]
         cands = [(qq, n) for qq, n in self.ix.lookup(q, kinds=('CXXRecordDecl',)) if n.get('completeDefinition')]
         if not cands:
             raise LoweringError(f'no complete definition for record {q}')
@@ -522,6 +550,10 @@ class Unit(Lowering, ExprMixin, CallMixin, StmtMixin):
 
     def helper_text(self):
         out = []
+        if 'str' in self.helpers or 'str' in self.typedef_names:
+            self.ctype(self.resolve(parse_type('std::string')))
+            self.ctype(self.resolve(parse_type('std::string_view')))
+            out.append('CXX_STR()')
         for h in sorted(self.helpers, key=str):
             if isinstance(h, tuple):
                 kind, ct, s = h
@@ -529,11 +561,12 @@ class Unit(Lowering, ExprMixin, CallMixin, StmtMixin):
         return out
 
     def emit(self):
+        ht = self.helper_text()
         L = ['/* generated by cxx2c from %s -- do not edit */' % self.spec.source,
              '#include "cxxmodel.h"', '']
         L += self.typedefs
         L += ['']
-        L += self.helper_text()
+        L += ht
         L += self.static_decls
         L += self.globals_c
         L += self.init_fns
